@@ -25,7 +25,7 @@ from ..simserver import SERVER_PORT, ScriptedPeer, ScriptedServer, make_client, 
 SPEC = 'FileTransfer/FileTransfer.tla'
 TRACE = 'FileTransfer/FileTransferTrace.tla'
 
-U_PORT, D_PORT = 61000, 62000
+U_PORT, D_PORT, U2_PORT = 61000, 62000, 63000
 CHAIN_S = 300            # longest timeout chain of one attempt: reply 30 + file connection 60 + data 180 + slack
 SIZES = [0, 1, 127, 128, 129, 8191, 8192, 8193, 3 * 8192 + 5]
 
@@ -37,12 +37,17 @@ def source(size: int) -> bytes:
     return _SRC_ALL[:size]
 
 
+def twin_source(size: int) -> bytes:
+    """Content of the equally named file of the second uploader: differs from source() at every byte."""
+    return bytes(b ^ 0x5A for b in _SRC_ALL[:size])
+
+
 # ---------------------------------------------------------------------------
 # schedules
 # ---------------------------------------------------------------------------
 
 def sched(mode='real2', size=0, k0=0, b0=0, resume=False, ulimit=0, dlimit=0, seg='none', fdelay=0.0, ddelay=0.0,
-          faults=(), script=(), retry=True, src='grid'):
+          faults=(), script=(), retry=True, twin=(), src='grid'):
     """faults: tuple of (attempt, kind, ...):
          (n, 'cut', mode, phase, k)   phase: 'data' (after k data bytes) | 'ticket' (after k of 4 ticket bytes)
                                        | 'offset' (after k of the 8 offset bytes)
@@ -50,11 +55,15 @@ def sched(mode='real2', size=0, k0=0, b0=0, resume=False, ulimit=0, dlimit=0, se
          (n, 'ufail', k)              the uploader's end of the n-th file connection breaks after k data bytes
                                       (its next write fails; what is in flight still arrives, then EOF)
          (n, 'hold_upfailed', secs)   the n-th PeerUploadFailed frame is held back secs seconds (overtaken)
+       twin: () or (size2, skew, first): a second download of an equally named file (other content, size2 bytes)
+             from a second (scripted, honest) uploader runs next to ours on the same downloader; the tickets of
+             the two file connections are handed over together: first 'ours' | 'twin', the other one skew loop
+             iterations later.  The twin download is recorded and validated as a trace of its own.
        ddelay: delay of the data phase of the file connection (bytes and close from the uploader)
        script (scripted party, per attempt): see ScriptedUploader / ScriptedDownloader."""
     return dict(mode=mode, size=size, k0=k0, b0=b0, resume=bool(resume or k0 or b0), ulimit=ulimit, dlimit=dlimit,
                 seg=seg, fdelay=fdelay, ddelay=ddelay, faults=tuple(tuple(f) for f in faults), script=tuple(tuple(s) for s in script),
-                retry=retry, src=src)
+                retry=retry, twin=tuple(twin), src=src)
 
 
 def sched_key(s):
@@ -95,6 +104,8 @@ class _LinkInfo:
         self.uoff = -1
         self.scripted_u = False
         self.ufailed = False
+        self.owner = None           # the Run that records this link (None: the primary)
+        self.held_ticket = False
 
 
 class Run:
@@ -117,6 +128,11 @@ class Run:
         self.finished = False
         self.progress = {'d': -1, 'u': -1}      # bytes_transfered of the last TransferProgressEvent snapshot
         self.pending_holds = 0                  # held PeerUploadFailed frames not yet delivered
+        self.req_ticket = None
+        self.ticket_from = None                 # twin: use the ticket number the primary's uploader chose
+        self.twin = None                        # Run of the twin download (recorder only, same loop and network)
+        self.is_twin = False
+        self.barrier = None
 
     # -- observation -----------------------------------------------------------
     def d_state(self):
@@ -187,21 +203,24 @@ class Run:
         def delayed(side, data):
             # an own FIFO delay for the uploader's bytes on the file connection (distinct deadlines keep
             # the order; Link.delay may reorder segments that fall on the same deadline)
-            d = self.s['fdelay']
+            d = (info.owner or self).s['fdelay']
             if d and side == 0 and info.kind == 'F':
                 seq[0] += 1
                 self.loop.call_later(d + seq[0] * 1e-6, orig, side, data)
                 return None
             return orig(side, data)
 
+        if link.addr[1][1] == U2_PORT:
+            info.owner = self.twin
+
         def deliver(side, data):
-            return self._deliver(info, delayed, side, bytes(data))
+            return (info.owner or self)._deliver(info, delayed, side, bytes(data))
 
         def cut(mode='eof'):
             was_open = not link.dead and not any(link.closed)
             orig_cut(mode)
             if was_open and info.kind == 'F':        # cutting a connection one side has already left is no fault
-                self.event('fault', kind=mode)
+                (info.owner or self).event('fault', kind=mode)
 
         link._deliver = deliver
         link.cut = cut
@@ -222,6 +241,10 @@ class Run:
                     info.user = user
             except Exception:
                 pass
+            if info.kind == 'F' and getattr(info, 'user', None) == 'upl2' and self.twin is not None and not self.is_twin:
+                info.owner = self.twin          # the twin's file connection: recorded by the twin
+                info.kind = None
+                return self.twin._deliver(info, orig, side, data)
             info.hdr = len(data)
             if info.kind == 'F':
                 self.nflinks += 1
@@ -250,9 +273,15 @@ class Run:
                     info.u_data += data[skip:]
                 if start >= info.hdr + 4 and self.s['ddelay'] and not link.delay[0]:
                     link.delay[0] = self.s['ddelay']          # from the first data byte on (FIFO, the close too)
+                if self.barrier is not None and info.attempt == 1 and start == info.hdr and not info.held_ticket:
+                    info.held_ticket = True                   # the ticket: handed over together with the other one
+                    self.barrier.arrive('twin' if self.is_twin else 'ours', lambda: orig(side, data))
+                    return None
                 res = orig(side, data)
                 for f in self._faults_for(info.attempt, 'ufail'):
-                    if not info.ufailed and len(info.u_data) >= f[2] and start + len(data) > info.hdr + 4:
+                    # only while bytes remain to be written: the break shows as the failure of the *next* write
+                    if not info.ufailed and len(info.u_data) >= f[2] and start + len(data) > info.hdr + 4 \
+                            and len(info.u_data) < len(self.src) - max(info.uoff, 0):
                         info.ufailed = True
                         link.writers[0].fail_writes = ConnectionResetError(104, 'Connection reset by peer')
                         self.event('fault', kind='ufail')
@@ -274,6 +303,8 @@ class Run:
                 frame = data[pos:pos + 4 + ln]
                 pos += 4 + ln
                 name = {40: 'request', 41: 'reply'}.get(code)
+                if code == 40 and len(frame) >= 16:
+                    self.req_ticket = struct.unpack_from('<I', frame, 12)[0]     # ticket of the last request seen
                 if code == 43:
                     self.counts['queue'] += 1
                 if code == 46:
@@ -363,6 +394,25 @@ class Run:
             if s['mode'] == 'scrD':
                 self.sd = ScriptedDownloader(self, net, remote)
 
+            t2 = None
+            if s['twin'] and D is not None:
+                size2, skew, first = s['twin'][:3]
+                tw = Run(sched(mode='scrU', size=size2, src='twin'), self.tmp)
+                tw.is_twin, tw.loop, tw.t0, tw.src = True, loop, self.t0, twin_source(size2)
+                srv.addresses['upl2'] = ('10.0.0.3', U2_PORT, 0)
+                remote2 = '@@other\\albums\\' + remote.replace('/', '\\').split('\\')[-1]
+                tw.su = ScriptedUploader(tw, net, remote2, name='upl2', port=U2_PORT)
+                await tw.su.start()
+                t2 = Transfer('upl2', remote2, TransferDirection.DOWNLOAD)
+                tw.dt = t2
+                t2.state_listeners.append(_Listener(tw, 'd'))
+                tw.events.append(dict(ev='init', mode='scrU', size=size2, k0=0, b0=0, st='QUEUED'))
+                tw.events[0]['snap'] = tw.snap()
+                self.twin = tw
+                self.barrier = tw.barrier = _Barrier(loop, skew, first)
+                if len(s['twin']) > 3 and s['twin'][3] == 'same_ticket':
+                    tw.ticket_from = self
+
             # the download
             if D is not None:
                 t = Transfer('upl', remote, TransferDirection.DOWNLOAD)
@@ -380,8 +430,12 @@ class Run:
                 self.events[0]['snap'] = self.snap()
                 self.events[0]['snap']['dst'] = self.events[0]['st']
                 await D.transfers.add(t)
+                if t2 is not None:
+                    await D.transfers.add(t2)
                 if not s['resume']:
                     await t.state.queue()
+                if t2 is not None:
+                    await t2.state.queue()
             else:
                 self.events.append(dict(ev='init', mode=s['mode'], size=s['size'], k0=0, b0=0, st='QUEUED'))
                 self.events[0]['snap'] = self.snap()
@@ -393,6 +447,9 @@ class Run:
             self.event('final', expect=self._expect(), bound=int(bound * 1000) + 1000,
                        pd=self.progress['d'], pu=self.progress['u'])
             self.finished = True
+            if self.twin is not None:
+                self.twin.event('final', expect='dcomplete', bound=int(bound * 1000) + 1000, pd=-1, pu=-1)
+                self.twin.finished = True
             self.notes.append(f'unhandled={len(loop.unhandled)}')
         finally:
             for c in clients:
@@ -426,6 +483,8 @@ class Run:
     def _settled(self):
         d, u = self.d_state(), self.u_state()
         if self.pending_holds:
+            return False
+        if self.twin is not None and not self.twin._settled():
             return False
         if self.s['mode'] == 'scrD':
             return d in ('COMPLETE', 'FAILED', 'INCOMPLETE') and u in ('COMPLETE', 'FAILED') and self.sd.idle
@@ -461,6 +520,43 @@ class Run:
                     want_retry = 0
 
 
+class _Barrier:
+    """Hands the tickets of two file connections to the downloader together (the later one skew loop
+    iterations after the first), so that both downloads prepare their local path at the same time."""
+
+    def __init__(self, loop, skew, first):
+        self.loop, self.skew, self.first = loop, skew, first
+        self.pending = {}
+        self.released = False
+
+    def arrive(self, who, fn):
+        if self.released:
+            fn()
+            return
+        self.pending[who] = fn
+        if len(self.pending) == 2:
+            self.release()
+        elif len(self.pending) == 1:
+            self.loop.call_later(2.0, self.release)       # the other connection never came: do not hold for ever
+
+    def release(self):
+        if self.released:
+            return
+        self.released = True
+        order = [self.first, 'twin' if self.first == 'ours' else 'ours']
+        fns = [self.pending[w] for w in order if w in self.pending]
+
+        def hop(k, fn):
+            if k <= 0:
+                fn()
+            else:
+                self.loop.call_soon(hop, k - 1, fn)
+        if fns:
+            fns[0]()
+        for fn in fns[1:]:
+            hop(self.skew, fn)
+
+
 class _Listener:
     def __init__(self, run, who):
         self.run, self.who = run, who
@@ -486,13 +582,13 @@ class ScriptedUploader:
        | ('stall', k) stop after k bytes, keep the connection | ('fail_early',) PeerUploadFailed instead of a request
        | ('abandon',) give up silently after the reply (no file connection)"""
 
-    def __init__(self, run: Run, net, remote):
+    def __init__(self, run: Run, net, remote, name='upl', port=U_PORT):
         from aioslsk.protocol import messages as M
         self.M, self.run, self.net, self.remote = M, run, net, remote
-        self.peer = ScriptedPeer(net, 'upl', U_PORT)
+        self.peer = ScriptedPeer(net, name, port)
         self.state = 'NONE'
         self.rsn = False
-        self.ticket = 100
+        self.ticket = 100 if name == 'upl' else 5000       # tickets are the uploader's own numbering
         self.attempt = 0
         self.busy = False
         self.reply_waiters = {}
@@ -550,6 +646,13 @@ class ScriptedUploader:
         self._set('INITIALIZING')
         self.ticket += 1
         tk = self.ticket
+        if run.ticket_from is not None:
+            # two uploaders number their transfers independently: nothing keeps them from choosing the same ticket
+            for _ in range(200):
+                if run.ticket_from.req_ticket is not None:
+                    break
+                await asyncio.sleep(0.01)
+            tk = run.ticket_from.req_ticket if run.ticket_from.req_ticket is not None else tk
         fut = asyncio.get_running_loop().create_future()
         self.reply_waiters[tk] = fut
         pep.send_message(M.PeerTransferRequest.Request(1, tk, self.remote, filesize=size))
@@ -820,6 +923,24 @@ def grid(thorough: bool, rng):
         add(sched(size=size, ulimit=16, faults=[(1, 'ufail', size // 2), (1, 'hold_upfailed', 0.1)]))
         add(sched(size=size, ulimit=4, faults=[(1, 'cut', 'reset', 'data', 1000), (1, 'hold_upfailed', 0.06),
                                                (2, 'cut', 'reset', 'data', 1000), (2, 'hold_upfailed', 2.0)]))
+    # K. a second download of an equally named file (other content) from a second uploader on the same
+    #    downloader, the two file connections handed over in the same / adjacent loop iterations: every
+    #    download keeps its own local file; and the same with both uploaders using the same ticket number
+    add(sched(size=8193, twin=(8193, 0, 'ours'), src='grid!'))
+    add(sched(size=8193, twin=(8193, 2, 'twin'), src='grid!'))
+    add(sched(size=3 * 8192 + 5, twin=(129, 1, 'twin'), src='grid!'))
+    add(sched(size=8193, ulimit=16, twin=(8193, 3, 'ours'), src='grid!'))
+    add(sched(mode='scrU', size=129, twin=(8193, 0, 'twin'), src='grid!'))
+    add(sched(size=8193, k0=100, b0=100, twin=(200, 0, 'ours'), src='grid!'))
+    add(sched(size=8193, faults=[(1, 'cut', 'reset', 'data', 4000)], twin=(8193, 1, 'ours'), src='grid!'))
+    add(sched(size=8193, twin=(8193, 1, 'ours', 'same_ticket'), src='grid!'))
+    add(sched(size=8193, twin=(8193, 0, 'twin', 'same_ticket'), src='grid!'))
+    add(sched(size=3 * 8192 + 5, twin=(129, 2, 'ours', 'same_ticket'), src='grid!'))
+    if thorough:
+        for size in (0, 1, 129, 8192, 8193, 3 * 8192 + 5):
+            for skew in range(0, 7):
+                add(sched(size=size, twin=(rng.choice([size, 129, 8193]), skew, rng.choice(['ours', 'twin']))))
+            add(sched(size=size, twin=(size, rng.choice([0, 1, 2, 4]), rng.choice(['ours', 'twin']), 'same_ticket')))
     if thorough:
         for size in SIZES[1:]:
             for _ in range(6):
@@ -1006,6 +1127,12 @@ def classify(trace, at, s):
     if ev == 'final' and rec['snap']['dst'] == 'INITIALIZING' and last_off is not None \
             and last_off['snap']['fcs'] == 'ended' and not d_since:
         return 'C04:_initialize_download:offset-write-fails:download-stays-INITIALIZING'
+    if ev == 'd' and rec.get('new') == 'COMPLETE' and trace[0]['mode'] != 'scrD' and rec['snap']['len'] >= 0 \
+            and not rec['snap']['iden']:
+        return 'C04:download-COMPLETE-but-local-file-is-not-the-remote-file'
+    if s and len(s.get('twin') or ()) > 3 and s['twin'][3] == 'same_ticket':
+        # two uploaders that number their transfers alike: the file connection is handed to the wrong download
+        return 'C04:_on_peer_initialized:file-connection-matched-by-ticket-only:two-uploaders-same-ticket'
     if ev == 'offset':
         return 'C04:offset-on-the-wire-is-not-the-local-file-size'
     if ev in ('d', 'u'):
@@ -1093,7 +1220,8 @@ def run(chk: Check, args):
                        'time and the recorded execution is validated by TLC against FileTransferTrace; distinct = distinct '
                        '(schedule, recorded trace); non-trivial = a file connection was opened')
     # -- design model ------------------------------------------------------------------
-    acts = ['DQueueRemotely', 'DRecvRequest', 'DRequeueOnRequest', 'DFileConnTimeout', 'DOffsetErr', 'DStartDownload',
+    acts = ['DQueueRemotely', 'DRecvRequest', 'DRequeueOnRequest', 'DFileConnTimeout', 'DOffsetErr', 'DPickPath',
+            'DCreateFile', 'DStartDownload',
             'DRecv', 'DSeeEof', 'DSeeReset', 'DDataTimeout', 'DTimedOut', 'DClose', 'DVerdict', 'DRecvUpFailed',
             'UserRetry', 'URecvQueue', 'UInitialize', 'URecvReply', 'UReplyTimeout', 'UOpenFileConn', 'URecvOffset',
             'UOffsetFail', 'USend', 'USendDone', 'UVerdict', 'LoseRequest', 'LoseReply', 'BreakUSide', 'HoldUpFailed',
@@ -1101,11 +1229,23 @@ def run(chk: Check, args):
             'ScrUSendJunk', 'ScrUCloseEarly', 'ScrUStall', 'ScrUStallEnd', 'ScrDCloseEarly']
     r = tlc.model_check(SPEC, 'MC_quick.cfg', expect_actions=acts, timeout=1200)
     chk.add_model('FileTransfer sizes 0..3, chunk 2, F=1 (exhaustive, safety + liveness)', r)
+    # releasing the download-path lock before the file exists must break "the local file is the source"
+    rp = tlc.run_tlc(SPEC, 'MC_code_path.cfg', timeout=900)
+    hit = any(i.kind == 'invariant' and i.name in ('PrefixKept', 'DCompleteIsIdentical') for i in rp.issues)
+    chk.cov['binding_selftest']['model_PathLockFix_FALSE_violates_PrefixKept'] = hit
+    if not hit:
+        raise MachineryFailure('MC_code_path.cfg: the early release of the path lock did not violate the file invariants')
+    rt = tlc.model_check(SPEC, 'MC_twin.cfg', expect_actions=['TPickPath', 'TCreateFile', 'TWrite', 'DPickPath', 'DCreateFile'],
+                         timeout=1200)
+    chk.add_model('FileTransfer with a twin download of an equally named file, sizes 0..3, F=0 (exhaustive)', rt)
+    if thorough:
+        rtb = tlc.model_check(SPEC, 'MC_twin_big.cfg', timeout=3000)
+        chk.add_model('FileTransfer with a twin download, sizes 0..2, F=1 (exhaustive)', rtb)
     if thorough:
         rm = tlc.model_check(SPEC, 'MC_mid.cfg', timeout=3000)
         chk.add_model('FileTransfer sizes 0..5, chunk 2, F=1 (exhaustive, safety + liveness)', rm)
         rb = tlc.model_check(SPEC, 'MC_big.cfg', timeout=3000)
-        chk.add_model('FileTransfer sizes 0..4, chunk 2, F=2 (exhaustive, safety + liveness)', rb)
+        chk.add_model('FileTransfer sizes 0..3, chunk 2, F=2 (exhaustive, safety + liveness)', rb)
     # the design as found in the code must violate the liveness property: the property has teeth
     for cfg, key in (('MC_code_zero.cfg', 'model_ZeroFix_FALSE_violates_Finishes'),
                      ('MC_code_offerr.cfg', 'model_OffsetErrFix_FALSE_violates_Finishes'),
@@ -1138,7 +1278,7 @@ def run(chk: Check, args):
         chk.rng.shuffle(g)
         must = [s for s in g if s['size'] in (0, 8193) or s['mode'] != 'real2' or s['resume'] or s['ulimit'] in (1, 2)]
         rest = [s for s in g if s not in must]
-        order = always + must[:180] + rest[:90] + keep[:90]
+        order = always + must[:150] + rest[:70] + keep[:80]
 
     # -- replay on the real code ----------------------------------------------------------
     root = tempfile.mkdtemp(prefix='c04-')
@@ -1149,6 +1289,11 @@ def run(chk: Check, args):
             traces.append(ev)
             metas.append(dict(sched=s, notes=run_.notes))
             chk.count((sched_key(s), _signature(ev)), nontrivial=any(e['ev'] == 'offset' for e in ev))
+            if run_.twin is not None:           # the second download of the run is judged like the first
+                tev = add_lookahead(run_.twin.events)
+                traces.append(tev)
+                metas.append(dict(sched=s, notes=run_.notes, pair='twin'))
+                chk.count((sched_key(s), 'twin', _signature(tev)), nontrivial=any(e['ev'] == 'offset' for e in tev))
     finally:
         shutil.rmtree(root, ignore_errors=True)
     chk.log(f'executed {len(traces)} schedules on the real code')
@@ -1198,25 +1343,32 @@ def run(chk: Check, args):
 
 
 def replay(chk: Check, data: dict):
-    """Re-execute the schedule of a replay file on the current tree and validate the new trace."""
+    """Re-execute the schedule of a replay file on the current tree and validate the new trace(s)."""
     s = ((data.get('replay') or {}).get('meta') or {}).get('sched')
     if not s:
         raise MachineryFailure('no schedule in the replay file')
     s = sched(**{k: v for k, v in s.items() if k in ('mode', 'size', 'k0', 'b0', 'resume', 'ulimit', 'dlimit', 'seg',
-                                                     'fdelay', 'ddelay', 'faults', 'script', 'retry', 'src')})
+                                                     'fdelay', 'ddelay', 'faults', 'script', 'retry', 'twin', 'src')})
     root = tempfile.mkdtemp(prefix='c04-')
     try:
         ev, run_ = run_schedule(s, root)
     finally:
         shutil.rmtree(root, ignore_errors=True)
-    chk.count((sched_key(s), _signature(ev)))
-    v = tlc.validate_traces(TRACE, 'Trace.cfg', [ev], max_diag=0, env={'C04_PROGRESS': '0'})
+    evs = [ev] + ([add_lookahead(run_.twin.events)] if run_.twin is not None else [])
+    for e in evs:
+        chk.count((sched_key(s), _signature(e)))
+    v = tlc.validate_traces(TRACE, 'Trace.cfg', evs, max_diag=0, env={'C04_PROGRESS': '0'})
     if v.rejected:
-        at = first_unexplained({1: ev})
-        v.rejected[1] = dict(kind='unexplained_event', name='NoSpecActionMatches', at=at[1],
-                             event=ev[min(at[1], len(ev)) - 1], detail='')
-    chk.apply_verdicts(v, [ev], lambda tid, info, tr: classify(tr, info['at'], s), meta_of=lambda tid: dict(sched=s))
-    for e in ev:
-        sn = e['snap']
-        chk.log({k: x for k, x in e.items() if k not in ('snap', 'nlen')},
-                f"t={sn['t']} d={sn['dst']} u={sn['ust']} len={sn['len']} sent={sn['sent']} fcs={sn['fcs']}")
+        at = first_unexplained({tid: evs[tid - 1] for tid in v.rejected})
+        for tid in v.rejected:
+            tr = evs[tid - 1]
+            v.rejected[tid] = dict(kind='unexplained_event', name='NoSpecActionMatches', at=at[tid],
+                                   event=tr[min(at[tid], len(tr)) - 1], detail='')
+    chk.apply_verdicts(v, evs, lambda tid, info, tr: classify(tr, info['at'], s),
+                       meta_of=lambda tid: dict(sched=s, pair='twin' if tid == 2 else 'ours'))
+    for i, tr in enumerate(evs):
+        chk.log('--- ours' if i == 0 else '--- twin download')
+        for e in tr:
+            sn = e['snap']
+            chk.log({k: x for k, x in e.items() if k not in ('snap', 'nlen')},
+                    f"t={sn['t']} d={sn['dst']} u={sn['ust']} len={sn['len']} sent={sn['sent']} fcs={sn['fcs']}")
